@@ -193,8 +193,41 @@ func execC12(spec *RunSpec) *Result {
 	case spec.Grid != nil && len(spec.Grid.Offsets) > 0:
 		offsets = spec.Grid.Offsets
 	case spec.Grid != nil && spec.Grid.All:
-		for k := 0; k <= n; k++ {
-			offsets = append(offsets, k)
+		if n <= 1500 {
+			for k := 0; k <= n; k++ {
+				offsets = append(offsets, k)
+			}
+		} else {
+			// a long document (deep nesting indents by hundreds of columns): every offset of the first and last 300
+			// bytes, every Write-call boundary with its neighbours, and an even sample in between - about 1500 offsets
+			set := map[int]bool{}
+			for k := 0; k <= 300; k++ {
+				set[k], set[n-k] = true, true
+			}
+			for _, b := range ref.Bounds {
+				set[b-1], set[b], set[b+1] = true, true, true
+			}
+			for k := 300; k < n-300; k += (n-600)/600 + 1 {
+				set[k] = true
+			}
+			for k := range set {
+				if k >= 0 && k <= n {
+					offsets = append(offsets, k)
+				}
+			}
+			sort.Ints(offsets)
+			if len(offsets) > 2500 {
+				// very many Write calls: thin the middle
+				keep := append([]int{}, offsets[:400]...)
+				step := (len(offsets) - 800) / 1500
+				if step < 1 {
+					step = 1
+				}
+				for i := 400; i < len(offsets)-400; i += step {
+					keep = append(keep, offsets[i])
+				}
+				offsets = append(keep, offsets[len(offsets)-400:]...)
+			}
 		}
 	default:
 		set := map[int]bool{0: true, 1: true, n - 1: true, n: true, n / 2: true}
